@@ -4,7 +4,9 @@ import OrbitModel.Proofs.ReplHist
 
 `U` is any finite list of hashes containing every head ever requested and closed under the links
 of this log's entries (`Closed`): without it the replicator could chase links forever. Fuel is
-explicit: `fuelBound`/`fuelLoad` for a state with left-over workers, `3·|U|` from a quiescent one.
+explicit: `fuelBound`/`fuelLoad` for a state with left-over workers, `3·|U|` from a quiescent one
+(per hash: `acquire`, `fetched`, `finish`; plus one `deliver` for the single `LoadEnd` of the drain —
+so `3·|U| < n` is exactly enough).
 -/
 namespace Orbit.Repl
 
@@ -25,7 +27,7 @@ theorem first_drain (hc : 0 < c) (hU : Closed net U) {s : St} (hi : Inv net c s)
     ∀ h ∈ hs, tracked s1 h := by
   intro s1
   obtain ⟨l1, l2, _, l4, _, l6, _, l8⟩ := load_facts (net := net) hin ctx hhs
-  have hfuel : pot U (step net s (.load ctx hs)) < n := by
+  have hfuel : pot U (step net s (.load ctx hs)) ≤ n := by
     have h1 := pot_le_fuelBound U (step net s (.load ctx hs))
     have h2 : fuelBound U (step net s (.load ctx hs)) ≤ fuelLoad U s := by
       unfold fuelBound fuelLoad
@@ -73,8 +75,8 @@ theorem two_requests (hc : 0 < c) (hU : Closed net U) {s : St} (hi : Inv net c s
   have hcl1 : Clean s1 := by intro w hw; rw [show s1.workers = [] from r3] at hw; cases hw
   have hctx1 : s1.cancelled.contains ctx' = false := by
     rw [show s1.cancelled = _ from r5]; exact hctx'
-  have hpot1 : pot U s1 < m := by
-    unfold pot
+  have hpot1 : potB U s1 < m := by
+    unfold potB
     rw [show s1.workers = [] from r3, show s1.pending = [] from r4]
     have := fresh_le_length U s1
     simp only [wsum, List.map_nil, List.sum_nil, List.length_nil]
@@ -103,7 +105,7 @@ theorem one_request (hc : 0 < c) (hU : Closed net U) {s : St} (hi : Inv net c s)
     quiescent s' = true ∧ s'.failed = [] ∧ (∀ x, ReachV net hs x → x ∈ s'.log) ∧
     (∀ x ∈ s'.log, (net x).valid = true ∧ (net x).foreign = false) := by
   intro s'
-  have := pot_le_fuelBound U s
+  have := potB_le_fuelBound U s
   obtain ⟨q1, _, q3, q4, q5, _, q7⟩ := load_drain_clean hc hU hi hin hcl hctx hhs (n := n) (by omega)
   refine ⟨quiescent_of q3 q4, q5, ?_, fun x hx => (q1.log_ok x hx).2⟩
   intro x hx
@@ -166,7 +168,7 @@ theorem replicator_complete (hc : 0 < c) (hU : Closed net U)
   intro s'
   have hin : StIn U ({ sem := c } : St) := ⟨fun w hw => (by cases hw), fun h hh => (by cases hh)⟩
   have hcl : Clean ({ sem := c } : St) := by intro w hw; cases hw
-  have hpot : pot U ({ sem := c } : St) < n := by
+  have hpot : potB U ({ sem := c } : St) < n := by
     have := fresh_le_length U ({ sem := c } : St)
     show 3 * fresh U _ + wsum U.length [] [] + 0 < n
     simp only [wsum, List.map_nil, List.sum_nil]; omega
